@@ -757,6 +757,11 @@ func runC07(cfg *vh.Config) error {
 		for i := 0; i < nMut && i < nMutFront; i++ {
 			add(mutContents[i][mainFile], "malformed: "+mutHow[i])
 		}
+		// ---- stream 10: valid bundles of C02's generator (harness/j5sgen): every package accepted; their texts join the walker stream
+		jt, jh := runJ5sGen(cfg, res, &caseNo, distinct)
+		for i := range jt {
+			add(jt[i], jh[i])
+		}
 		for _, t := range texts {
 			distinct.Add("front:" + t)
 		}
